@@ -11,6 +11,11 @@ import vp
 
 ABS, HP, HN = 99, 77, -77
 POOLS = {"ascii": "abcde", "multi": "é世\U0001F600ßñ", "comb": "é世̈a"}
+# long containers (the LongLens family of MC_PySlice): pairwise distinct characters, so that a selection that is off by one
+# character or counted in bytes shows; 12 multi-byte characters are 36 bytes, 24 ASCII ones 24 bytes (both beyond the 23 bytes
+# a string holds inline)
+LONG = {"ascii": "abcdefghijklmnopqrstuvwxyz", "multi": "".join([chr(0xe0 + i), chr(0x4e16 + i), chr(0x1F600 + i)][i % 3] for i in range(26)),
+        "comb": "".join([chr(0x61 + i), chr(0x300 + i)][i % 2] for i in range(26))}
 # (the first of each: far out of range, yet congruent modulo 2^64 to a small position -- 1 and -1)
 HUGE_P = [("i128-wrap", {"$i128": str(2**64 + 1)}), ("u64", {"$u64": str(2**63)}), ("i128", {"$i128": str(2**127 - 1)}), ("u128-wrap", {"$u128": str(2**64)}), ("i128-wrap2", {"$i128": str(2**65 + 2)})]
 HUGE_N = [("i128-wrap", {"$i128": str(-2**64 - 1)}), ("i64", {"$i64": str(-2**63)}), ("i128", {"$i128": str(-2**127)}), ("i128-wrap0", {"$i128": str(-2**64)}), ("i128-wrap2", {"$i128": str(-2**65 - 2)})]
@@ -50,7 +55,7 @@ def run(tier):
     for vec in r.tags["VEC"]:
         v, res = vec["v"], vec["r"]
         n = v["len"]
-        conts = [("arr", [10 + i for i in range(n)])] + [(pn, list(p[:n])) for pn, p in POOLS.items()]
+        conts = [("arr", [10 + i for i in range(n)])] + [(pn, list((p if n <= len(p) else LONG[pn])[:n])) for pn, p in POOLS.items()]
         if v["op"] == "slice":
             variants = range(3 if tier == "quick" else 5)
             for var in variants:
